@@ -73,7 +73,8 @@ Defined.
     (fun (x : st R * ic_st O * nat) (k : nat) => S k < length (ic_abs (snd (fst x))))
     (fun (x : st R * ic_st O * nat) (v : val R) => dom (fst (fst x)) v)
     (fun x y : st R * ic_st O * nat =>
-       sim (fst (fst x)) (fst (fst y)) /\ ic_abs (snd (fst x)) = ic_abs (snd (fst y)) /\ snd x = snd y).
+       sim (fst (fst x)) (fst (fst y)) /\ ic_abs (snd (fst x)) = ic_abs (snd (fst y)) /\ snd x = snd y)
+    (fun l : list (st R * ic_st O * nat) => mergeable (map (fun x => fst (fst x)) l)).
 
 Lemma nth_snoc {A} (l : list A) x k :
   nth_error (l ++ [x]) k = if k <? length l then nth_error l k else if k =? length l then Some x else None.
@@ -181,9 +182,9 @@ Proof.
       intros k a b Ha Hb. destruct k; cbn in *; [discriminate|destruct k; discriminate].
     + split; [apply clear_ok; assumption|]. split; [|reflexivity].
       rewrite !abs_push, abs_clear, abs_default by (apply inv_clear || apply inv_default). reflexivity.
-  - intros l Hl. cbn [inv consec_spec merge consec fst snd].
+  - intros l Hl Hm. cbn [inv consec_spec merge consec fst snd].
     split.
-    { apply merge_inv. rewrite Forall_forall in *. intros y Hy. apply in_map_iff in Hy.
+    { apply merge_inv; [|exact Hm]. rewrite Forall_forall in *. intros y Hy. apply in_map_iff in Hy.
       destruct Hy as (x & <- & Hx). apply (Hl x Hx). }
     split; [apply inv_push, inv_default|]. split; [symmetry; apply extent_merge|].
     exists []. rewrite abs_push, abs_default by apply inv_default. cbn.
